@@ -611,9 +611,13 @@ def index_bounds(ctx, rule='C08.index-bounds'):
     res = []
     F = ctx.facts
     n = 0
+    # the position field of a stack element: its `usize` field, whatever it is called
+    sp = F.adt('SearchPath')
+    ixf = [f0['name'] for f0 in (sp['variants'][0]['fields'] if sp else []) if f0['ty'] == 'usize']
+    ix = ixf[0] if len(ixf) == 1 else 'index'
     for fn in F.fns:
         du = None
-        for bb, si, s in stores_to_field(fn, 'SearchPath', 'index'):
+        for bb, si, s in stores_to_field(fn, 'SearchPath', ix):
             if s['rv']['k'] != 'use':
                 continue
             du = du or ctx.du(fn)
@@ -626,7 +630,7 @@ def index_bounds(ctx, rule='C08.index-bounds'):
                 at = fn.term(a)
                 if at['k'] == 'switch':
                     _, da = du.slice_operand(at['discr'])
-                    if any(x[0] == 'call' and last_seg(strip_generics(x[2])) in ('len', 'count') for x in da) and has_field(da, 'SearchPath', 'index'):
+                    if any(x[0] == 'call' and last_seg(strip_generics(x[2])) in ('len', 'count') for x in da) and has_field(da, 'SearchPath', ix):
                         bounded = True
             if bounded:
                 res.append(ok(rule, 'cursor index advanced at %s under a comparison with the node length' % fn.loc(bb, si), sites=1))
